@@ -69,10 +69,8 @@ func (t *TCP) UnmarshalBinary(data []byte) error {
 	t.Checksum = binary.BigEndian.Uint16(data[16:18])
 	t.UrgFlag = binary.BigEndian.Uint16(data[18:20])
 
-	if len(data) > 20 {
-		t.Data = make([]byte, (len(data) - 20))
-		copy(t.Data, data[20:])
-	}
+	t.Data = make([]byte, (len(data) - 20))
+	copy(t.Data, data[20:])
 
 	return nil
 
